@@ -62,6 +62,7 @@ def run(ctx):
         cases, check_impl=check_impl, nontrivial=lambda fn, a, o_: o_[0] == "OK",
         rule="random PVK sizes 8/16/24 x index x PIN x PAN lengths 12..24 (+ all 10^4 PINs in thorough) + directed inputs "
              "needing the second decimalisation pass + domain edges; oracle = independent PVV; non-trivial = distinct successful calls")
+    fw.inplace_history(res, rng, [c for c in cases if check_impl(c[0], c[1], core.impl_call(c[0], c[1])) is None][:200], check_impl)
     res["distribution"]["second_pass_inputs"] = found
     res["distribution"]["corpus_inputs_0_or_1_decimal_nibbles"] = len(corpus)
     return res
